@@ -1440,7 +1440,7 @@ class TrigInfo:
 
         kill_me = bool(self.task_unique_kwargs and self.task_unique_kwargs["kill_me"])
 
-        async def do_func_call(func, ast_ctx, task_unique, task_unique_func, hass_context, **kwargs):
+        async def do_func_call(func, ast_ctx, task_unique, task_unique_func, hass_context, /, **kwargs):
             # Store HASS Context for this Task
             Function.store_hass_context(hass_context)
 
